@@ -359,6 +359,7 @@ static void solvePhase(vh::Rng &r, Scene &sc, vpsc::Dim dim, int rounds, long am
                 again = t.solve();
                 printState("solve", (int) dim, sc.nodes, sc.edges);
                 printConstraints(t, sc.edges, (int) dim);
+                printFinalPositions(vs, (int) dim);
                 --budget;
             } while (again && --loop > 0 && budget > 0);
         }
@@ -494,7 +495,7 @@ static void witnessSolve(Scene &sc, vpsc::Dim dim, const std::vector<double> &de
         }
         printf("\n"); fflush(stdout);
         int loop = 100; bool again;
-        do { again = t.solve(); printState("solve", (int) dim, sc.nodes, sc.edges); printConstraints(t, sc.edges, (int) dim); } while (again && --loop > 0);
+        do { again = t.solve(); printState("solve", (int) dim, sc.nodes, sc.edges); printConstraints(t, sc.edges, (int) dim); printFinalPositions(vs, (int) dim); } while (again && --loop > 0);
     }
     for (size_t i = 0; i < cs.size(); ++i) delete cs[i];
     for (size_t i = 0; i < vs.size(); ++i) delete vs[i];
@@ -675,7 +676,7 @@ static void dragPass(Scene &sc, vpsc::Dim dim, const std::vector<double> &des, c
         printConstraints(t, sc.edges, (int) dim, &cs);
         for (unsigned i = 0; i < n; ++i) { vs[i]->desiredPosition = des[i]; vs[i]->weight = wts[i]; }
         int loop = 100; bool again;
-        do { again = t.solve(); printState("solve", (int) dim, sc.nodes, sc.edges); printConstraints(t, sc.edges, (int) dim); --budget; } while (again && --loop > 0 && budget > 0);
+        do { again = t.solve(); printState("solve", (int) dim, sc.nodes, sc.edges); printConstraints(t, sc.edges, (int) dim); printFinalPositions(vs, (int) dim); --budget; } while (again && --loop > 0 && budget > 0);
     }
     for (size_t i = 0; i < cs.size(); ++i) delete cs[i];
     for (size_t i = 0; i < vs.size(); ++i) delete vs[i];
